@@ -2,8 +2,20 @@
 and monitor: harness/exec_props.py (monitor family 6 of Exec/ExecTrace.v)."""
 from harness import exec_props as X
 
-BIAS = {}
-TINY = None
+# random histories: TIMEDOUT-heavy report mixes (42% of the reports in the "timeout" profile, so
+# runs of rlimit+2 consecutive timeouts of one step are common), a third of the submissions fail
+# (failing restart submissions, exhausted attempts), 1-3 attempts, throttled and unthrottled
+BIAS = {"profiles": ["timeout", "timeout", "timeout", "timeout", "mixed", "hw"],
+        "sub_ok_p": 0.7, "cancel_p": 0.04, "attempts": [1, 2, 3], "max_polls": 16, "nmax": 7,
+        "fair_after": [None, None, 6, 10]}
+# exhaustive tiny scope: the tiny graphs carry restart commands with limits 0 (unlimited), 1, 2
+# and steps without restart command; every queried job is absent / RUNNING / FINISHED / TIMEDOUT /
+# HWFAILURE at every poll, every submission may fail, a cancel request may arrive at any poll
+TINY = {"depth_quick": 4, "depth_thorough": 5, "graphs_quick": 6,
+        "cfgs": [{"throttle": 0, "attempts": 1, "dry": False}, {"throttle": 1, "attempts": 2, "dry": False}],
+        "enum": {"q": False, "cancel": True, "subs": True,
+                 "kinds": ["absent", "RUNNING", "FINISHED", "TIMEDOUT", "HWFAILURE"]},
+        "limit_quick": 2400, "limit_thorough": 60000}
 
 
 def run(ck):
